@@ -1,11 +1,11 @@
-\* C40 lead: with full-close streams the side that finishes first can lose bytes it wrote, because the failing write
-\* of the opposite direction tears both streams down.  Expected: InvEndToEnd is violated (replayed on the real
-\* tun.Pipe over bufconn by drv/pipes, scenario family "revloss").
+\* C40 lead: with full-close streams (bufconn, closed TCP peer) the side that finishes first can lose bytes it wrote,
+\* because the failing write of the opposite direction tears both streams down.  Expected: InvEndToEndAll is
+\* violated (replayed on the real tun.Pipe over bufconn by drv/pipes, scenario family "revloss").
 SPECIFICATION Spec
 CONSTANTS
   Pay <- Pay21
   Errors = FALSE
-  CloseBreaksWrite = TRUE
+  CloseModes = {TRUE}
   Variant = "code"
-INVARIANTS InvEndToEnd
+INVARIANTS InvEndToEndAll
 CHECK_DEADLOCK FALSE
